@@ -9,7 +9,7 @@ import XotModel.Lemmas.ForestBasic
 import XotModel.Lemmas.FspecDetach
 import XotModel.Lemmas.FspecAppend
 import XotModel.Lemmas.FspecContent
-import XotModel.Lemmas.FspecSamePrepend
+import XotModel.Lemmas.FspecSurvivor
 
 namespace XotModel.Props
 open XotModel XotModel.Spec
@@ -163,6 +163,92 @@ theorem C05_samepos_insertBefore {f : Forest} {r c : Nat} (hc : f.structureCheck
 theorem C05_samepos_spec (keep : Keep) (dest : Dest) (c : Nat) (f : Forest) (h : dest.occupiedBy f c = true) :
     specMove keep dest c f = f := by
   unfold specMove; rw [h]; rfl
+
+/-! ### Frame: no other node is lost, reordered or altered
+
+  `Ctx.shape` of a node = (parent handle, handles of the left siblings, own value, handles of the
+  right siblings).  A node whose parent is neither the parent the moved subtree leaves nor the one
+  it arrives at, and that does not lie in the moved subtree, keeps its shape. -/
+
+theorem C05_frame_append {f : Forest} {p c : Nat} {t : HTree} (inv : f.Inv) (norm : f.Normal)
+    (hok : (f.append p c).2 = .ok) (hgc : f.get? c = some t)
+    {x : Nat} {cx : HTree.Ctx} (hx : f.ctx? x = some cx)
+    (h1 : cx.parent ≠ p) (h2 : some cx.parent ≠ f.parent? c) (h3 : cx.parent ∉ HTree.handles t)
+    (h4 : x ∉ HTree.handles t) :
+    ∃ cx', (f.append p c).1.ctx? x = some cx' ∧ cx'.shape = cx.shape :=
+  append_frame inv norm hok hgc hx h1 h2 h3 h4
+
+theorem C05_frame_prepend {f : Forest} {p c : Nat} {t : HTree} (inv : f.Inv) (norm : f.Normal)
+    (hok : (f.prepend p c).2 = .ok) (hgc : f.get? c = some t)
+    {x : Nat} {cx : HTree.Ctx} (hx : f.ctx? x = some cx)
+    (h1 : cx.parent ≠ p) (h2 : some cx.parent ≠ f.parent? c) (h3 : cx.parent ∉ HTree.handles t)
+    (h4 : x ∉ HTree.handles t) :
+    ∃ cx', (f.prepend p c).1.ctx? x = some cx' ∧ cx'.shape = cx.shape :=
+  prepend_frame inv norm hok hgc hx h1 h2 h3 h4
+
+theorem C05_frame_insertAfter {f : Forest} {r c q : Nat} {t : HTree} (inv : f.Inv) (norm : f.Normal)
+    (hok : (f.insertAfter r c).2 = .ok) (hgc : f.get? c = some t) (hq : f.parent? r = some q)
+    {x : Nat} {cx : HTree.Ctx} (hx : f.ctx? x = some cx)
+    (h1 : cx.parent ≠ q) (h2 : some cx.parent ≠ f.parent? c) (h3 : cx.parent ∉ HTree.handles t)
+    (h4 : x ∉ HTree.handles t) :
+    ∃ cx', (f.insertAfter r c).1.ctx? x = some cx' ∧ cx'.shape = cx.shape :=
+  insertAfter_frame inv norm hok hgc hq hx h1 h2 h3 h4
+
+theorem C05_frame_insertBefore {f : Forest} {r c q : Nat} {t : HTree} (inv : f.Inv) (norm : f.Normal)
+    (hok : (f.insertBefore r c).2 = .ok) (hgc : f.get? c = some t) (hq : f.parent? r = some q)
+    {x : Nat} {cx : HTree.Ctx} (hx : f.ctx? x = some cx)
+    (h1 : cx.parent ≠ q) (h2 : some cx.parent ≠ f.parent? c) (h3 : cx.parent ∉ HTree.handles t)
+    (h4 : x ∉ HTree.handles t) :
+    ∃ cx', (f.insertBefore r c).1.ctx? x = some cx' ∧ cx'.shape = cx.shape :=
+  insertBefore_frame inv norm hok hgc hq hx h1 h2 h3 h4
+
+theorem C05_frame_remove {f : Forest} {n : Nat} {t : HTree} (inv : f.Inv) (norm : f.Normal)
+    (hg : f.get? n = some t) {x : Nat} {cx : HTree.Ctx} (hx : f.ctx? x = some cx)
+    (h1 : some cx.parent ≠ f.parent? n) (h3 : cx.parent ∉ HTree.handles t) (h4 : x ∉ HTree.handles t) :
+    ∃ cx', (f.remove n).1.ctx? x = some cx' ∧ cx'.shape = cx.shape :=
+  remove_frame inv norm hg hx h1 h3 h4
+
+/-! ### Which text node survives a merge at the destination (what the code does)
+
+  After a text node: the EARLIER (existing) node survives.  Before a text node: the LATER
+  (existing) node survives and the moved, earlier, node is destroyed — against the letter of the
+  property ("merged into the earlier one"); recorded finding, pinned by xot's unit tests. -/
+
+theorem C05_survivor_append {f : Forest} {p c a : Nat} {ta tc : Str} (inv : f.Inv) (norm : f.Normal)
+    (hc : f.consolidation = true) (hsc : f.structureCheck (some p) c = true)
+    (hlast : f.lastChild p = some a) (hac : a ≠ c)
+    (hta : f.textOf a = some ta) (htc : f.textOf c = some tc) :
+    (f.append p c).2 = .ok ∧ (f.append p c).1.isLive c = false ∧
+      (f.append p c).1.value? a = some (.text (ta ++ tc)) :=
+  append_survivor inv norm hc hsc hlast hac hta htc
+
+theorem C05_survivor_insertAfter {f : Forest} {r c : Nat} {tr tc : Str} (inv : f.Inv) (norm : f.Normal)
+    (hc : f.consolidation = true) (hsc : f.structureCheck (f.parent? r) c = true)
+    (hsr : f.siblingReferenceCheck r c = true) (hsame : f.nextSibling r ≠ some c)
+    (htr : f.textOf r = some tr) (htc : f.textOf c = some tc) :
+    (f.insertAfter r c).2 = .ok ∧ (f.insertAfter r c).1.isLive c = false ∧
+      (f.insertAfter r c).1.value? r = some (.text (tr ++ tc)) :=
+  insertAfter_survivor inv norm hc hsc hsr hsame htr htc
+
+/-- `prepend`: the LATER node survives. -/
+theorem C05_survivor_prepend {f : Forest} {p c b : Nat} {tb tc : Str} (inv : f.Inv) (norm : f.Normal)
+    (hc : f.consolidation = true) (hsc : f.structureCheck (some p) c = true)
+    (hfirst : f.firstChild p = some b) (hbc : b ≠ c)
+    (htb : f.textOf b = some tb) (htc : f.textOf c = some tc) :
+    (f.prepend p c).2 = .ok ∧ (f.prepend p c).1.isLive c = false ∧
+      (f.prepend p c).1.value? b = some (.text (tc ++ tb)) :=
+  prepend_survivor inv norm hc hsc hfirst hbc htb htc
+
+/-- `insert_before`: the LATER node survives (`hprev` holds automatically in a forest without
+    adjacent text when `r` is a text node and `c` is not directly before it). -/
+theorem C05_survivor_insertBefore {f : Forest} {r c : Nat} {tr tc : Str} (inv : f.Inv) (norm : f.Normal)
+    (hc : f.consolidation = true) (hsc : f.structureCheck (f.parent? r) c = true)
+    (hsr : f.siblingReferenceCheck r c = true) (hsame : f.prevSibling r ≠ some c)
+    (hprev : ∀ a, f.prevSibling r = some a → f.textOf a = none)
+    (htr : f.textOf r = some tr) (htc : f.textOf c = some tc) :
+    (f.insertBefore r c).2 = .ok ∧ (f.insertBefore r c).1.isLive c = false ∧
+      (f.insertBefore r c).1.value? r = some (.text (tc ++ tr)) :=
+  insertBefore_survivor inv norm hc hsc hsr hsame hprev htr htc
 
 /-- When a text node is appended after a text node, the EARLIER node survives: it keeps its
     handle and carries both data, the appended node is gone. -/
